@@ -312,14 +312,21 @@ class Session:
         else:
             smts = [s.to_smt2()]
         self._model = None
-        results = solve_many(smts, budget)
+        results = solve_many(smts, budget, confirm=(self.tier == 'thorough' and not os.environ.get('VERIF_NO_CVC5')))
+        so = getattr(solve_many, 'second_opinions', None)
+        if so:
+            self.second_agree = getattr(self, 'second_agree', 0) + so['agree']
+            self.second_none = getattr(self, 'second_none', 0) + so['none']
         r = z3.unsat
         for (v, model) in results:
             if v == 'sat':
                 r = z3.sat
                 self._model = DictModel(model)
                 break
-            if v != 'unsat':
+            if v == 'disagree':
+                self.inconclusive.append('solver disagreement: one of z3 / cvc5 answered unsat, the other sat')
+                r = z3.unknown
+            elif v != 'unsat':
                 r = z3.unknown
         dt = time.time() - t
         self.solver_s += dt
@@ -389,7 +396,6 @@ class Session:
             rec = self._record(oid, 'prove', desc, E, 'holds', dt, extra)
             if not self._side_conditions(oid, E, pre, rec):
                 rec['verdict'] = 'inconclusive'
-            self._cross_check(oid, s, rec)
             return True
         if r == z3.unknown:
             self._record(oid, 'prove', desc, E, 'inconclusive', dt, extra)
@@ -433,7 +439,6 @@ class Session:
             rec = self._record(oid, 'no_panic', desc, E, 'holds', dt, extra)
             if not self._side_conditions(oid, E, pre, rec):
                 rec['verdict'] = 'inconclusive'
-            self._cross_check(oid, s, rec)
             return True
         if r == z3.unknown:
             self._record(oid, 'no_panic', desc, E, 'inconclusive', dt, extra)
@@ -618,6 +623,7 @@ class Session:
                 'functions_encoded': fns,
                 'solver': 'engine M: z3 %s, integer encoding with explicit mod-2^w wrap, fresh context per query, cvc5 1.0 cross-check in the thorough tier; engine K: cargo kani 0.68 / CBMC 6.11 (cadical), unwinding assertions on' % z3.get_version_string(),
                 'solver_seconds': round(self.solver_s, 2), 'build_seconds': round(self.build_s, 2),
+                'second_solver_confirmed_unsat': getattr(self, 'second_agree', None), 'second_solver_no_answer_in_time': getattr(self, 'second_none', None),
                 'checker_cmd': './verif check %s --tier %s' % (self.prop, self.tier),
                 'trusted_base': trusted or ['rustc nightly -Zunpretty=mir output for the dev profile', 'engine_m MIR parser/executor and std models (cross-checked by translator validation against the native build)', 'z3'],
                 'samples': self.records,
@@ -736,6 +742,8 @@ def _cvc5_variant(smt, budget, q, tag):
         os.unlink(path)
         if out == 'unsat' and '(error' not in (r.stdout + r.stderr):
             q.put((tag, 'unsat', None))
+        elif out == 'sat' and '(error' not in (r.stdout + r.stderr):
+            q.put((tag, 'cvc5-sat', None))
         else:
             q.put((tag, 'unknown', None))
     except Exception:
@@ -753,10 +761,10 @@ def _kill_group(p):
             pass
 
 
-VARIANTS = [('z3', 0, None), ('z3', 11, 2), ('cvc5', None, None), ('z3', 5, 6)]
+VARIANTS = [('z3', 0, None), ('cvc5', None, None), ('z3', 11, 2), ('z3', 5, 6)]
 
 
-def solve_many(smts, budget):
+def solve_many(smts, budget, confirm=False):
     """decide every SMT-LIB query with a parallel portfolio (z3 with different seeds / arithmetic
     cores, cvc5 for unsat); each query runs in fresh processes so verdicts do not depend on history.
     Returns [(verdict, model-dict or None)] with verdict in sat / unsat / unknown."""
@@ -771,6 +779,9 @@ def solve_many(smts, budget):
             pending.append((i, v))
     running = {}          # tag -> (process, start)
     result = [None] * len(smts)
+    second = [None] * len(smts)       # confirm mode: what the *other* solver said about an unsat verdict
+    decided_by = [None] * len(smts)
+    decided_at = [None] * len(smts)
     unknowns = [0] * len(smts)
     started = [None] * len(smts)
 
@@ -789,10 +800,19 @@ def solve_many(smts, budget):
         for tag in [t for t in running if t[0] == i]:
             p, _ = running.pop(tag)
             _kill_group(p)
-    while (pending or running) and any(r is None for r in result):
+    def open_confirmations():
+        if not confirm:
+            return False
+        now = time.time()
+        for i in range(len(smts)):
+            if result[i] is not None and result[i][0] == 'unsat' and second[i] is None:
+                if (any(t[0] == i for t in running) or any(a == i for (a, b) in pending)) and now - decided_at[i] < 90:
+                    return True
+        return False
+    while ((pending or running) and any(r is None for r in result)) or open_confirmations():
         while pending and len(running) < maxproc:
             i, v = pending.pop(0)
-            if result[i] is None:
+            if result[i] is None or (confirm and result[i][0] == 'unsat' and second[i] is None and VARIANTS[v][0] != decided_by[i]):
                 launch(i, v)
         try:
             tag, verdict, model = q.get(timeout=1.0)
@@ -812,12 +832,25 @@ def solve_many(smts, budget):
         i = tag[0]
         if tag in running:
             running.pop(tag)[0].join(timeout=1)
+        kind = VARIANTS[tag[1]][0]
         if result[i] is not None:
+            # confirm mode: a second opinion on an already decided query
+            if confirm and result[i][0] == 'unsat' and kind != decided_by[i] and second[i] is None and verdict in ('unsat', 'sat', 'cvc5-sat'):
+                second[i] = verdict
+                kill_query(i)
             continue
+        if verdict == 'cvc5-sat':
+            verdict = 'unknown'       # cvc5 models are not parsed; wait for z3 to produce one
         if verdict in ('sat', 'unsat'):
             result[i] = (verdict, model)
-            kill_query(i)
-            pending[:] = [(a, b) for (a, b) in pending if a != i]
+            decided_by[i], decided_at[i] = kind, time.time()
+            if confirm and verdict == 'unsat':
+                # keep the other solver family running for a second opinion, drop same-family variants
+                for t in [t for t in running if t[0] == i and VARIANTS[t[1]][0] == kind]:
+                    _kill_group(running.pop(t)[0])
+            else:
+                kill_query(i)
+            pending[:] = [(a, b) for (a, b) in pending if a != i or (confirm and verdict == 'unsat' and VARIANTS[b][0] != kind)]
         else:
             unknowns[i] += 1
             if unknowns[i] >= nvar:
@@ -832,7 +865,16 @@ def solve_many(smts, budget):
                     os.unlink(os.path.join(CACHE, fn))
             except OSError:
                 pass
-    return [r if r is not None else ('unknown', None) for r in result]
+    out = []
+    for i, r in enumerate(result):
+        if r is None:
+            out.append(('unknown', None))
+        elif confirm and r[0] == 'unsat' and second[i] in ('sat', 'cvc5-sat'):
+            out.append(('disagree', None))
+        else:
+            out.append(r)
+    solve_many.second_opinions = {'agree': sum(1 for x in second if x == 'unsat'), 'none': sum(1 for i, x in enumerate(second) if x is None and result[i] and result[i][0] == 'unsat')}
+    return out
 
 
 class Inconclusive(Exception):
